@@ -937,9 +937,12 @@ func pgen(seed, k int) string {
 
 // C01.gen — generated programs, whole pipeline against R-lua.
 //
-//verif:harness prop=C01,C02,C03,C04,C05 tier=quick qparams=nprog:160 tparams=nprog:4000 bounds="generated program family pgen(seed, k), k < 160 (quick) / 4000 (thorough), seed = VERIF_SEED (default 0): about 14 statements each from the grammar in gen.go (locals, multiple assignment, if/loops/break/goto continue, functions with fixed and variable parameters, calls in every result context, tail calls, closures over loop variables, pcall/error values, constant folding, one program in three with objects sharing a metatable that defines __add __sub __concat __eq __lt __le __unm __index __newindex __call); inputs x, y, z symbolic 32-bit integers; at most 3 input-dependent comparisons per program" maxpaths=4000 tmaxpaths=100000
+//verif:harness prop=C01,C02,C03,C04,C05 tier=quick qparams=nprog:160 tparams=nprog:2500 bounds="generated program family pgen(seed, k), k < 160 (quick) / 2500 (thorough), seed = VERIF_SEED (default 0): about 14 statements each from the grammar in gen.go (locals, multiple assignment, if/loops/break/goto continue, functions with fixed and variable parameters, calls in every result context, tail calls, closures over loop variables, pcall/error values, constant folding, one program in three with objects sharing a metatable that defines __add __sub __concat __eq __lt __le __unm __index __newindex __call); inputs x, y, z symbolic 32-bit integers; at most 3 input-dependent comparisons per program" maxpaths=4000 tmaxpaths=100000
 func H_C01_gen() {
-	k := VChoice(VParam("nprog", 160))
+	k := VParam("onlyk", -1)
+	if k < 0 {
+		k = VChoice(VParam("nprog", 160))
+	}
 	src := pgen(VParam("seed", 0), k)
 	if VParam("dump", 0) == 1 {
 		VAbort("SRC: " + src)
